@@ -111,6 +111,12 @@ def run(ctx):
         c.set_header_cfg(edges, {"extreme": True})
         r = c.replay(ctx, "kb", edges, walks=walks, walklen=wl, allhist=ah)
         c.log("    with saliences i32::MIN / 0 / i32::MAX: %d behaviours, %d failures" % (r["behaviours"], r["failures_n"]))
+    # the name index is implementation state next to the list: EVERY operation sequence to depth 5 (6) over two names / two saliences
+    edges = ctx.path("Gen_KnowledgeBase_2.cfg.edges")
+    g = c.tlc_gen(ctx, "KnowledgeBase.tla", "Gen_KnowledgeBase_2.cfg", edges, cfgobj={"Names": ["a", "b"]}, timeout=600)
+    r = c.replay(ctx, "kb", edges, walks=0, walklen=6, allhist=5 if q else 6, histbudget=3000000)
+    c.log("  Gen_KnowledgeBase_2.cfg: %d edges / %d states; %d behaviours (every sequence to depth %d), %d failures" % (
+        g["edges"], g["states"], r["behaviours"], 5 if q else 6, r["failures_n"]))
     c.order_leg(ctx, "Gen_FireOrder_kb.cfg", "listing order of a large knowledge base")
     concurrent(ctx, 2000 if q else 50000, screened=60000 if q else 3000000)
     ctx.cov["exhaustive"] = True
